@@ -108,8 +108,9 @@ C09 == \A v \in {w \in Vals : Repairable(w)} :
 C10 == \A v \in Vals : \A A \in As :
           LET r == Assign(tm, v, A) IN
             /\ IsSubSeq(UserParts(r.term), UserParts(tm))
-            \* (a keyword argument that has become the default is removed as a whole, also by update)
-            /\ (("fix" \notin A /\ Shape # "call") => UserParts(r.term) = UserParts(tm))
+            \* (a MANAGED keyword argument that has become the default is removed as a whole, also by update; an
+            \*  argument that the user controls never is)
+            /\ ("fix" \notin A => UserParts(r.term) = UserParts(tm))
 (* C11: with fix but without update everything that is equal keeps its text *)
 FixKeepsEqual == \A v \in Vals : (VEq(Eval(tm), v) /\ ~HasPositional(tm)) => Assign(tm, v, {"fix"}).term = tm
 C11 == /\ FixKeepsEqual
